@@ -9,6 +9,7 @@ specs/NatBlocks/NatBlocksImpl.tla    U2/U3: walks the tables / histories / inter
                                      nat.Manager by harness/nat
 """
 import json, os, re, time
+import vcheck
 from vcheck import *
 from tablecheck import table_check
 
@@ -81,7 +82,7 @@ def runner(prop, fam, tier, seed, replay=None):
             cleanup(work)
     rc = table_check(prop, dict(fam, design=[]), tier, seed, replay)
     if rc in (0, 1) and not replay:
-        p = os.path.join(VERIF, "evidence", prop + ".json")
+        p = vcheck.evidence_path(prop)
         try:
             ev = json.load(open(p))
             cov = ev["coverage"]
